@@ -11,7 +11,7 @@ import numpy as np
 import impl
 
 RULE = ("random solved models: 1-4 base pins, with and without mode names (1-3 modes), non-symmetric complex matrices "
-        "with exact zeros, one parameter with 2-6 points or two parameters on a 2x2..3x3 grid, awkward floats (decimal "
+        "with exact zeros (whole entries and entries that vanish at single sweep points), one parameter with 2-6 points or two parameters on a 2x2..3x3 grid, awkward floats (decimal "
         "fractions, sums like 0.1+0.2, neighbours of powers of two, many digits), optional renaming of parameters on "
         "export and back on import, optional mode mapping (select / rename / map to no mode); every exported point is "
         "evaluated, plus midpoints for one-parameter sweeps; distinct = distinct (model, grid); non-trivial = non-symmetric matrix")
@@ -71,6 +71,7 @@ def gen_case(rng):
     r = np.random.default_rng(rng.randrange(2 ** 32))
     S = r.normal(size=(ns, n, n)) + 1j * r.normal(size=(ns, n, n))
     S[:, r.random(size=(n, n)) < 0.2] = 0
+    S[r.random(size=S.shape) < 0.1] = 0          # entries that vanish at some sweep points only (cos / sin going through zero)
     idx = list(range(n))
     rng.shuffle(idx)
     rename = rng.random() < 0.5
